@@ -57,7 +57,7 @@ def addCov (cov : List String) (tags : List String) : List String :=
   tags.foldl (fun c t => if c.contains t then c else c ++ [t]) cov
 
 /-- One C17 case on one model variant: `lines` are (lineNo, text) of the case body. -/
-def runCase17V (lines : Array (Nat × String)) (fix : Bool) : CaseResult := Id.run do
+def runCase17V (lines : Array (Nat × String)) (fixReap fixAck fixRetx : Bool) : CaseResult := Id.run do
   let mut res : CaseResult := {}
   let mut w : R17.World := {}
   let mut g : O17.G := {}
@@ -69,7 +69,7 @@ def runCase17V (lines : Array (Nat × String)) (fix : Bool) : CaseResult := Id.r
   for (ln, l) in lines do
     if l.startsWith "CFG" then
       let hs := parseHosts l
-      w := { fab := hs.foldl (fun f a => f.addHost a fix) {} }
+      w := { fab := hs.foldl (fun f a => f.addHost a fixReap fixAck fixRetx) {} }
       g := { addrs := hs }
     else if l.startsWith "OP " then
       match parseOp17 (l.splitOn " ") with
@@ -115,14 +115,20 @@ def runCase17V (lines : Array (Nat × String)) (fix : Bool) : CaseResult := Id.r
     res := { res with pattern := "F-C17-1" }
   return res
 
-/-- Correspondence accepts either model variant: the code as it is (faithful) or with the
-    repair of F-C17-1 (fixed). -/
-def runCase17 (lines : Array (Nat × String)) : CaseResult × String :=
-  let r := runCase17V lines false
-  if r.kOk then (r, "faithful")
-  else
-    let r2 := runCase17V lines true
-    if r2.kOk then (r2, "fixed") else (r, "-")
+/-- Correspondence accepts the code as it was (faithful) or any combination of the repairs
+    (F-C17-1 orphan reaping, ACK of unacceptable SYN/FIN, retransmit counters reset at the end of
+    the handshake); first match wins, the verdict of the faithful run is reported if none fits. -/
+def runCase17 (lines : Array (Nat × String)) : CaseResult × String := Id.run do
+  let r0 := runCase17V lines false false false
+  if r0.kOk then return (r0, "faithful")
+  let variants : List (Bool × Bool × Bool × String) :=
+    [(true, true, true, "fixed"), (true, false, false, "fixed:reap"), (false, true, false, "fixed:ack"),
+     (false, false, true, "fixed:retx"), (true, true, false, "fixed:reap+ack"),
+     (true, false, true, "fixed:reap+retx"), (false, true, true, "fixed:ack+retx")]
+  for (a, b, c, name) in variants do
+    let r := runCase17V lines a b c
+    if r.kOk then return (r, name)
+  return (r0, "-")
 
 def parseOp19 (t : List String) : Option R19.Op :=
   match t with
